@@ -743,7 +743,7 @@ class FCtx(object):
                 return None
             if want_gen and not all(isinstance(p_, ast.Expr) for p_ in yield_parents(target.node)):
                 return None          # only generators whose yields are plain statements
-            if target.node.decorator_list and any((dotted(d) or "") not in ("staticmethod",) for d in target.node.decorator_list):
+            if target.node.decorator_list and any(not _transparent_decorator(d, target.node) for d in target.node.decorator_list):
                 return None
             env = bind(target.node, list(args), list(kws), first)
             if env is None:
@@ -1194,6 +1194,29 @@ def _fold_with_escapes(model, node, module):
     except NotConst:
         return None
     return v if isinstance(v, str) else None
+
+
+def _transparent_decorator(dec, fn):
+    """a decorator under which a call still means the function's body: staticmethod; and memoisation (functools.lru_cache / cache)
+    of a function whose every result is immutable (a tuple built on the spot, a string, a number, a truth value) and which has no
+    global statement - the cache is keyed by the arguments, so a hit returns what the body would compute"""
+    d = dotted(dec.func if isinstance(dec, ast.Call) else dec) or ""
+    if d == "staticmethod":
+        return True
+    if d in ("lru_cache", "functools.lru_cache", "cache", "functools.cache"):
+        if any(isinstance(n, (ast.Global, ast.Nonlocal)) for n in ast.walk(fn)):
+            return False
+        rets = [n for n in ast.walk(fn) if isinstance(n, ast.Return)]
+        def immutable(v):
+            if v is None or isinstance(v, (ast.Constant, ast.JoinedStr, ast.Compare)):
+                return True
+            if isinstance(v, ast.Call) and dotted(v.func) in ("tuple", "str", "int", "bool", "float", "frozenset"):
+                return True
+            if isinstance(v, ast.Tuple):
+                return all(immutable(e) for e in v.elts)
+            return False
+        return bool(rets) and all(immutable(r.value) for r in rets)
+    return False
 
 
 class RegexSite(object):
@@ -1659,6 +1682,23 @@ def writer_emits(model, fref, out_index=1):
             keys, value, g2, l2, ev2 = item[:5]
             kind = item[5] if len(item) > 5 else "store"
             emits.append(Emit([cx.norm(x) for x in path + keys], cx.norm(value), tuple(g2), tuple(l2), ev2, kind))
+    # ``section = {}; <keys put into section, some in a loop over a field table, some under a condition>; out[name] = section``:
+    # the keys were lifted to out[name][k] above; the store of the local itself is then the creation of the (so far empty) section
+    for e in emits:
+        if e.kind == "store" and e.value is not None and e.value[0] == "local" and any(
+                o is not e and len(o.path) == len(e.path) + 1 and o.path[:len(e.path)] == e.path for o in emits):
+            init = e.value[3] if len(e.value) > 3 else None
+            if init is None or init == ("dict", ()) or (isinstance(init, tuple) and init and init[0] == "dict"):
+                e.value = ("dict", ())
+    S_ = ("param", cx.selfname) if cx.selfname else None
+    for e in emits:
+        v = e.value
+        if e.kind == "store" and v is not None and v[0] == "call" and v[1][0] == "attr" and v[1][1] == S_ and fref.cls is not None \
+                and any(v[1][2] in c.methods for c in model.subclasses(fref.cls)):
+            # a whole section handed over by a hook method that subclasses override (template method): which body runs depends on
+            # the receiver's class, which this extraction does not specialise - undecided, not a verdict
+            raise AnalysisError("%s stores the result of self.%s(), which subclasses override: the section's keys are not followed "
+                                "through the dynamic dispatch" % (fref.qname, v[1][2]))
     return cx, emits
 
 
